@@ -191,7 +191,7 @@ def work(job):
 
 def run(chk, tier):
     rng = random.Random(chk.seed * 7919 + 12)
-    n = 150 if tier == 'quick' else 4000
+    n = 450 if tier == 'quick' else 4000
     cases = [('m%d' % i, ) + gen_case(rng) for i in range(n)]
     dbin = common.harness('vdrv', 'asan'); xbin = common.harness('vxform', 'asan', transform=True)
     tmp = os.path.join(common.VERIF, '.build', 'tmp', 'c12-%d' % os.getpid())
